@@ -127,3 +127,123 @@ Definition em_sum (items : list em_item) : Z := fold_right (fun i s => snd i + s
 
 (* tags whose effect is append-only (a row per event) or additive (a total): every event must count *)
 Definition em_bridge_tags : list string := ["TagAddBurnTicket"; "TagAuthorizerBurn"; "TagAddBridgeMint"].
+
+(* ---------- field-wise model of the withEventMerge functions that add (MfAdd in Gen/EventMergers.v) ---------- *)
+
+(* The payload of an event of such a tag is a list of fields in the order of the generated table; a field is a map
+   subkey -> amount in insertion order. A scalar field (Reward, Amount, SavedData ...) is the one-entry map [(0, x)];
+   a map field (DelegateRewards, DelegatePenalties: pool id -> coin) has one entry per key. *)
+Definition emf_map : Type := list (Z * Z).
+Definition emf_payload : Type := list emf_map.
+Record emf_event := { fe_index : Z; fe_fields : emf_payload }.
+
+(* a.F[k] += v, or a.F[k] = v when k is new *)
+Fixpoint emf_map_add1 (a : emf_map) (k v : Z) : emf_map :=
+  match a with
+  | [] => [(k, v)]
+  | (k', x) :: tl => if Z.eqb k' k then (k', x + v) :: tl else (k', x) :: emf_map_add1 tl k v
+  end.
+
+(* for k, v := range b.F { ... } *)
+Definition emf_map_add (a b : emf_map) : emf_map := fold_left (fun acc kv => emf_map_add1 acc (fst kv) (snd kv)) b a.
+
+(* the merge function: every field of b is added to the same field of a *)
+Fixpoint emf_add (a b : emf_payload) : emf_payload :=
+  match a, b with
+  | fa :: ta, fb :: tb => emf_map_add fa fb :: emf_add ta tb
+  | _, _ => a
+  end.
+
+(* withEventMerge: the first event of an index absorbs the later ones *)
+Fixpoint emf_fold (idx : Z) (es : list emf_event) (acc : option emf_event) : option emf_event :=
+  match es with
+  | [] => acc
+  | e :: tl =>
+      if Z.eqb (fe_index e) idx then
+        match acc with
+        | None => emf_fold idx tl (Some e)
+        | Some a => emf_fold idx tl (Some {| fe_index := fe_index a; fe_fields := emf_add (fe_fields a) (fe_fields e) |})
+        end
+      else emf_fold idx tl acc
+  end.
+
+Fixpoint emf_indices (es : list emf_event) (seen : list Z) : list Z :=
+  match es with
+  | [] => []
+  | e :: tl => if existsb (Z.eqb (fe_index e)) seen then emf_indices tl seen
+               else fe_index e :: emf_indices tl (fe_index e :: seen)
+  end.
+
+Definition emf_merge (es : list emf_event) : list emf_event :=
+  flat_map (fun i => match emf_fold i es None with Some e => [e] | None => [] end) (emf_indices es []).
+
+(* what the handlers consume: the total of subkey k in field f over the events with index idx *)
+Fixpoint emf_total (k : Z) (m : emf_map) : Z :=
+  match m with
+  | [] => 0
+  | (k', x) :: tl => (if Z.eqb k' k then x else 0) + emf_total k tl
+  end.
+
+Definition emf_field (f : nat) (p : emf_payload) : emf_map := nth f p [].
+
+Fixpoint emf_idx_total (f : nat) (k idx : Z) (es : list emf_event) : Z :=
+  match es with
+  | [] => 0
+  | e :: tl => (if Z.eqb (fe_index e) idx then emf_total k (emf_field f (fe_fields e)) else 0) + emf_idx_total f k idx tl
+  end.
+
+(* ---------- the merge functions of the generated table ---------- *)
+
+Fixpoint em_fn_of (tbl : list (string * em_fn)) (tag : string) : option em_fn :=
+  match tbl with
+  | [] => None
+  | (t, f) :: tl => if String.eqb t tag then Some f else em_fn_of tl tag
+  end.
+
+(* The tags whose handler adds what the event carries to a stored total (blobber stats, challenge counters,
+   stake pool rewards per provider and per delegate pool, user aggregates): the merge function must add every
+   field the handler consumes. *)
+Definition em_additive_spec : list (string * list (string * em_field_kind)) := [
+  ("TagAddChallengeToAllocation", [("OpenChallenges", FScalar); ("TotalChallenges", FScalar)]);
+  ("TagUpdateBlobberChallenge", [("CompletedDelta", FScalar); ("PassedDelta", FScalar); ("OpenDelta", FScalar)]);
+  ("TagStakePoolReward", [("Reward", FScalar); ("DelegateRewards", FMap); ("DelegatePenalties", FMap)]);
+  ("TagUpdateBlobberStat", [("SavedData", FScalar); ("ReadData", FScalar)]);
+  ("TagUpdateUserCollectedRewards", [("CollectedReward", FScalar)]);
+  ("TagLockStakePool", [("Amount", FScalar)]);
+  ("TagUnlockStakePool", [("Amount", FScalar)]);
+  ("TagLockReadPool", [("Amount", FScalar)]);
+  ("TagUnlockReadPool", [("Amount", FScalar)]);
+  ("TagLockWritePool", [("Amount", FScalar)]);
+  ("TagUnlockWritePool", [("Amount", FScalar)]);
+  ("TagUpdateUserPayedFees", [("PayedFees", FScalar)])
+].
+
+(* withEventMerge mergers that replace by key instead of adding (allocation blobber terms: the later term of a blobber wins) *)
+Definition em_keyed_replace_tags : list string :=
+  ["TagUpdateAllocationBlobberTerm"; "TagAddOrOverwriteAllocationBlobberTerm"; "TagDeleteAllocationBlobberTerm"].
+
+Definition em_field_kind_eqb (a b : em_field_kind) : bool :=
+  match a, b with FScalar, FScalar => true | FMap, FMap => true | _, _ => false end.
+
+Fixpoint em_fields_eqb (a b : list (string * em_field_kind)) : bool :=
+  match a, b with
+  | [], [] => true
+  | (n, k) :: ta, (n', k') :: tb => (String.eqb n n' && em_field_kind_eqb k k' && em_fields_eqb ta tb)%bool
+  | _, _ => false
+  end.
+
+(* every tag of the spec is merged by withEventMerge with exactly the listed additions *)
+Definition em_spec_holds (kinds : list (string * em_kind)) (fns : list (string * em_fn)) : bool :=
+  forallb (fun s => (existsb (fun m => (String.eqb (fst m) (fst s) && match snd m with EmMerge => true | _ => false end)%bool) kinds &&
+                     match em_fn_of fns (fst s) with
+                     | Some (MfAdd fs) => em_fields_eqb fs (snd s)
+                     | _ => false
+                     end)%bool) em_additive_spec.
+
+(* every withEventMerge merger of the table is in the spec or is one of the keyed-replace tags *)
+Definition em_merge_tags_covered (kinds : list (string * em_kind)) : bool :=
+  forallb (fun m => match snd m with
+                    | EmMerge => (existsb (fun s => String.eqb (fst s) (fst m)) em_additive_spec ||
+                                  existsb (String.eqb (fst m)) em_keyed_replace_tags)%bool
+                    | _ => true
+                    end) kinds.
